@@ -58,7 +58,18 @@ def handle (line : String) : Out :=
           else match GV.Model.OffsetsTruth.truth era b with
             | none => "*"
             | some t => let s := fmtLocs (some t); s!"S={s} E={s} cmp=ok *"
-        { model := model, spec := spec }
+        -- known-finding class `script-key`: the block carries a Plutus script in a witness
+        -- set and the ONLY thing the harness found wrong is a Scripts key that matches no
+        -- decoded script (every range, and every other component, was verified first)
+        let hasPlutus := match GV.Model.OffsetsWit.componentsOf b ex with
+          | some cs => cs.any fun c => c.plutus > 0
+          | none => false
+        let onlyScriptKey := match cmp.splitOn ":" with
+          | ["cmp=bad", "E", t] => t.endsWith ".script-key" && !(t.contains ';')
+          | _ => false
+        let rangesOk := spec != "*" && (s!"S={m} E={m} cmp=ok *" == spec)
+        { model := model, spec := spec,
+          cls := if hasPlutus && onlyScriptKey && rangesOk then "script-key" else "" }
     | _ => badOp
   | _ => badOp
 
